@@ -165,7 +165,7 @@ Qed.
 (** what a [CRoutes] case on which [agree] evaluates to true establishes: the implementation's two outputs are the
     model's, and the model's are equivalent by C15_routes_agree whenever the harness claims the guard *)
 Theorem agree_routes_gives_hypotheses st meta M D J out_sdl out_json :
-  agree (CRoutes false true st meta M D J out_sdl out_json) = true ->
+  agree (CRoutes false true st meta [] M D J out_sdl out_json) = true ->
   model_ok M = true /\ doc_equiv D (sdl_doc M) /\ parsed_positions D.
 Proof.
   cbn [agree orb]. intros H. split_andb.
@@ -223,14 +223,14 @@ Proof.
 Qed.
 
 Theorem certified_case st meta M D J out_sdl out_json :
-  agree (CRoutes false true st meta M D J out_sdl out_json) = true ->
+  agree (CRoutes false true st meta [] M D J out_sdl out_json) = true ->
   exists Sj, out_json = Ok Sj /\ schema_equiv_on (vis_of M) Sj out_sdl.
 Proof.
   intros H. destruct (agree_routes_gives_hypotheses _ _ _ _ _ _ _ H) as [Hok [He Hp]].
-  cbn [agree orb] in H. split_andb.
+  cbn [agree orb listed_in] in H. split_andb.
   match goal with E : json_eqb _ J = true |- _ => apply json_eqb_eq in E; subst J end.
   match goal with E : schema_eqb _ out_sdl = true |- _ => apply schema_eqb_eq in E; subst out_sdl end.
-  destruct (routes_agree_for_corr st meta M D Hok He Hp) as [Sj [Hj Heq]].
+  destruct (routes_agree_for_corr st meta M D Hok He Hp) as [Sj [Hj Heq]]. unfold introspect in Hj.
   match goal with E : res_eqb schema_eqb _ out_json = true |- _ => rewrite Hj in E; destruct out_json as [so|e]; cbn [res_eqb] in E; [|discriminate];
     apply schema_eqb_eq in E; subst so end.
   exists Sj. split; [reflexivity|assumption].
